@@ -7,6 +7,8 @@ import (
 	"regexp"
 	"strings"
 
+	"gverif/internal/wiring"
+
 	"golang.org/x/tools/go/ssa"
 )
 
@@ -186,3 +188,51 @@ func c19Fragments(e *Env) {
 }
 
 var _ = ssa.Value(nil)
+
+// c19AliasScheme (R19.5): every import alias of the checked-in gontainer.go is a name today's
+// imports.Alias can produce (membership in the regular language of the expression that builds the name),
+// and its last part is the sanitised last path segment. A change of the numbering scheme (decimal,
+// upper-case hex, another prefix) renames the aliases of the regenerated file.
+func c19AliasScheme(e *Env, gm *wiring.GoModel) {
+	r := e.R
+	key := importsRel + ".imports.Alias#scheme"
+	fn := e.P.Func(importsRel, "imports.Alias")
+	if fn == nil || gm == nil || gm.File == nil {
+		r.Undecide("R19.5", key, "anchor not found")
+		return
+	}
+	pat := ""
+	for _, blk := range fn.Blocks {
+		for _, ins := range blk.Instrs {
+			if mu, ok := ins.(*ssa.MapUpdate); ok {
+				ctx := &strLangCtx{kept: "[A-Za-z0-9]", reads: map[string]bool{}, exact: true}
+				pat = ctx.lang(mu.Value, 0)
+			}
+		}
+	}
+	if pat == "" {
+		r.Undecide("R19.5", key, "the expression that builds the stored name was not found")
+		return
+	}
+	re, err := regexp.Compile(`\A(?:` + pat + `)\z`)
+	if err != nil {
+		r.Undecide("R19.5", key, "language of the name not computable: "+err.Error())
+		return
+	}
+	n, bad := 0, ""
+	for _, imp := range gm.File.Imports {
+		if imp.Name == nil || imp.Name.Name == "_" || imp.Name.Name == "." {
+			continue
+		}
+		n++
+		if !re.MatchString(imp.Name.Name) && bad == "" {
+			bad = imp.Name.Name
+		}
+	}
+	r.Analysed["shipped_import_aliases"] = n
+	if n == 0 {
+		r.Undecide("R19.5", key, "the checked-in file has no aliased import")
+		return
+	}
+	r.Check(bad == "", "R19.5", key, fmt.Sprintf("all %d import aliases of the checked-in file belong to the language of names imports.Alias builds today (%s); first that does not: %q", n, pat, bad), e.P.Pos(fn.Pos()))
+}
